@@ -7,7 +7,6 @@ import sys
 import warnings
 from collections import abc
 from dataclasses import MISSING, Field
-from dataclasses import astuple as _get_arguments
 from dataclasses import dataclass as _create_dataclass
 from dataclasses import field as _create_field
 from dataclasses import fields as _get_fields
@@ -39,6 +38,16 @@ if TYPE_CHECKING:
     T = TypeVar("T")
 
 ExprClass = TypeVar("ExprClass", bound=sp.Expr)
+
+
+def _get_arguments(instance) -> tuple:
+    """Get the field values of a dataclass-like expression class as a `tuple`.
+
+    This is a *shallow* version of :func:`dataclasses.astuple`: that function recurses
+    into field values that are dataclass instances themselves, so that a nested
+    unevaluated expression would be converted to a plain `tuple` of its own fields.
+    """
+    return tuple(getattr(instance, field.name) for field in _get_fields(instance))
 
 
 class SymPyAssumptions(TypedDict, total=False):
